@@ -61,6 +61,11 @@ def reqOf (a : Adapter) (method : Option Str) (ws : Option Bool) : Req :=
   ⟨((match method with | some x => if x.isEmpty then a.defaultMethod else x | none => a.defaultMethod)).map upperAscii,
    ws.getD (isWsScheme a.urlScheme)⟩
 
+/-- tail of `make_alias_redirect_url`: `assert url != path` with `path = f"{domain_part}|{path_part}"` (reachable
+only when the bound domain part contains a '/') -/
+def aliasOutcome (url domainPart pp : Str) : Outcome :=
+  if url == domainPart ++ '|' :: pp then .error "AssertionError" else .redirect url
+
 /-- `MapAdapter.match(path_info, method, query_args=qa, websocket=ws)` -/
 def matchAdapter (m : RMap) (a : Adapter) (pathInfo : Str) (method : Option Str) (qa : QueryArgs)
     (ws : Option Bool) : Outcome :=
@@ -73,7 +78,7 @@ def matchAdapter (m : RMap) (a : Adapter) (pathInfo : Str) (method : Option Str)
   | .aliasRedirect r vals =>
     match adapterBuild m.cfg a m.rules r.endpoint vals (some q.method) true false with
     | .error e => .error e
-    | .ok url => .redirect (if qa.truthy then url ++ '?' :: encodeQueryArgs qa else url)
+    | .ok url => aliasOutcome (if qa.truthy then url ++ '?' :: encodeQueryArgs qa else url) domainPart pp
   | .noMatch ms wsm =>
     if !ms.isEmpty then .methodNotAllowed ms.eraseDups
     else if wsm then .wsMismatch
